@@ -59,6 +59,10 @@ func runC18(p *core.Program, r *core.Report) {
 	r.Rule("C18.atomic-write", "the configuration path is never truncated in place: temp file in the same directory + Sync + Rename", 1)
 	r.Rule("C18.merge", "SetValues re-reads the file, overlays the keys and writes once", 1)
 
+	r.Rule("C18.apply-atomic", "a reload is one step for readers: the loop that stores a file's entries into the configuration map does not take the lock entry by entry", 1)
+	c18ApplyAtomic(p, r)
+	r.Rule("C18.observers", "whoever registers is notified: Add stores the observer under its name on every path (the latest registration under a name is the one in force); Run calls ApplyConfig on every registered observer", 2)
+	c18Observers(p, r)
 	c18MapGuard(p, r)
 	c18Getters(p, r)
 	c18Trim(p, r)
